@@ -186,7 +186,8 @@ def oracle(case, r):
                     bad.append(("checkstyle_line", "error line %d message %r, formatted line is %r" % (n, msg, want)))
         except ET.ParseError as e:
             forbidden = any((ord(ch) < 32 and ch not in "\t\n\r") for c in ml for l in c[2] for ch in l)
-            bad.append(("checkstyle_forbidden_char" if forbidden else "checkstyle_wellformed",
+            name_special = any(ch in case.get("name", "") for ch in "&<\"")
+            bad.append(("checkstyle_forbidden_char" if forbidden else ("checkstyle_name_unescaped" if name_special else "checkstyle_wellformed"),
                         "checkstyle document not well-formed: %s" % e))
         # modified-lines emitter prints the same report
         if em["modified_lines"]["out"] != r["printed"]:
